@@ -83,9 +83,13 @@ class Peer:
                               b"HTTP/1.1 304 Not Modified\r\nContent-Length: 5\r\n\r\n")
         if kind == "eof":
             return b"HTTP/1.1 200 OK\r\nServer: x\r\n\r\n"
-        if kind == "badval":
+        if kind == "badval":  # parses, framing decidable, rejected by validate_headers
             return self._pick(b"HTTP/1.1 200 OK\r\nContent-Length: 8\r\nTransfer-Encoding: chunked\r\n\r\n",
-                              b"HTTP/1.1 200 OK\r\nTransfer-Encoding: chunked\r\nTransfer-Encoding: chunked\r\n\r\n")
+                              b"HTTP/1.1 200 OK\r\nTransfer-Encoding: chunked\r\nBad Name: x\r\n\r\n")
+        if kind == "badframe":  # head parses, framing undecidable
+            return self._pick(b"HTTP/1.1 200 OK\r\nTransfer-Encoding: chunked\r\nTransfer-Encoding: chunked\r\n\r\n",
+                              b"HTTP/1.1 200 OK\r\nContent-Length: abc\r\n\r\n",
+                              b"HTTP/1.1 200 OK\r\nTransfer-Encoding: nope\r\n\r\n")
         raise ValueError(kind)
 
     def resp_body(self, last: bool) -> bytes | None:
@@ -275,7 +279,7 @@ def run_random(seed: int, n: int, nflows: int):
         if s is not None:
             if env.readable(s):
                 if st["resp"] == "idle":
-                    ch += [("ServerHead", rng.choice(["cl", "cl", "chunked", "nobody", "eof", "badval", "garbage"]))] * 3
+                    ch += [("ServerHead", rng.choice(["cl", "cl", "chunked", "nobody", "eof", "badval", "badframe", "garbage"]))] * 3
                 elif st["resp"] == "body":
                     ch += [("ServerBody", ""), ("ServerEnd", ""), ("ServerEnd", "")]
                 ch += [("ServerFin", "")]
@@ -337,12 +341,12 @@ class Check(core.PropertyCheck):
     def model_constants(self, tier):
         if tier == "quick":
             return {"ReqKinds": frozenset({"get", "post", "badval", "badframe", "garbage"}),
-                    "RespKinds": frozenset({"cl", "nobody", "eof", "badval", "garbage"}),
-                    "Policies": POL_QUICK, "MaxFlows": 1, "MaxReqChunks": 0, "MaxRespChunks": 0,
+                    "RespKinds": frozenset({"cl", "nobody", "eof", "badval", "badframe", "garbage"}),
+                    "BadFrameKept": True, "Policies": POL_QUICK, "MaxFlows": 1, "MaxReqChunks": 0, "MaxRespChunks": 0,
                     "FixUpstream": self.fix_upstream}
         return {"ReqKinds": frozenset({"get", "post", "chunked", "badval", "badframe", "garbage"}),
-                "RespKinds": frozenset({"cl", "nobody", "eof", "badval", "garbage"}),
-                "Policies": POL_QUICK, "MaxFlows": 2, "MaxReqChunks": 1, "MaxRespChunks": 1,
+                "RespKinds": frozenset({"cl", "nobody", "eof", "badval", "badframe", "garbage"}),
+                "BadFrameKept": True, "Policies": POL_QUICK, "MaxFlows": 2, "MaxReqChunks": 1, "MaxRespChunks": 1,
                 "FixUpstream": self.fix_upstream}
 
     def model_runs(self, ctx):
